@@ -127,10 +127,10 @@ def _pack(data, object_list):
             packed_bytes = bytes([0xC1]) + object_index.to_bytes(1, byteorder="little")
         elif object_index <= 0xFFFF:
             packed_bytes = bytes([0xC2]) + object_index.to_bytes(2, byteorder="little")
+        elif object_index <= 0xFFFFFF:
+            packed_bytes = bytes([0xC3]) + object_index.to_bytes(3, byteorder="little")
         elif object_index <= 0xFFFFFFFF:
-            packed_bytes = bytes([0xC3]) + object_index.to_bytes(4, byteorder="little")
-        elif object_index <= 0xFFFFFFFFFFFFFFFF:
-            packed_bytes = bytes([0xC4]) + object_index.to_bytes(8, byteorder="little")
+            packed_bytes = bytes([0xC4]) + object_index.to_bytes(4, byteorder="little")
     elif len(packed_bytes) > 1:
         object_list.append(packed_bytes)
 
